@@ -143,7 +143,7 @@ def judge(ctx, label, obj, specs, X, T, what):
 
 # -- single correlations -------------------------------------------------------------------
 def single_case():
-    return TG.group_spec().map(lambda s: dict(kind='single', spec=s))
+    return TG.group_spec(from_zero=True).map(lambda s: dict(kind='single', spec=s))
 
 
 def temps_for(ranges, extra=()):
@@ -177,7 +177,7 @@ def _short(s):
 @st.composite
 def estimate_case(draw):
     n = draw(st.integers(1, 6))
-    specs = [draw(TG.group_spec(H='yes', S='yes')) for _ in range(n)]
+    specs = [draw(TG.group_spec(H='yes', S='yes', from_zero=True)) for _ in range(n)]
     # relate the ranges: shift copies so that ranges nest / overlap / touch / are disjoint
     rel = draw(st.sampled_from(['as-drawn', 'as-drawn', 'touching', 'disjoint', 'identical']))
     if rel in ('touching', 'disjoint') and n >= 2 and specs[0]['range'] and specs[1]['range']:
